@@ -542,10 +542,14 @@ func (self *FieldMask) ForEachChild(scanner func(strKey string, intKey int, chil
 		return
 	}
 	switch self.typ {
-	case FtScalar:
+	case FtScalar, FtInvalid:
+		// a mask that is not set (empty mask) has no children
 		return
 	case FtStruct:
 		fm := self.fdMask
+		if fm == nil {
+			return
+		}
 		for k, v := range fm.tail {
 			if !scanner("", int(k), v) {
 				return
